@@ -171,6 +171,10 @@ def _generate(c):
         elif s.xdtype == "float32":
             X0 = X0.astype(numpy.float32)
         s.X0, s.y0 = X0, y0
+        # ... and a later fit on that set may have died inside one bucket
+        s.prefit_dies = ch.boolean("f", 0.5, "fit-before-dies")
+        s.prefit_site = ch.draw("f", 64, "site-position")
+        s.prefit_kind = ch.weighted("f", [("runtime", 3), ("value", 2), ("cancel", 1)], "fault-kind")
     s.g = ch.subseed("r", "global-seed")
     s.os_base = ch.subseed("r", "os-entropy-base")
     return s
@@ -206,11 +210,24 @@ def _execute(c, s, n_jobs, seen):
     Xin = U.as_frame(s.X) if s.frame else s.X
     Xcopy, ycopy = s.X.copy(), s.y.copy()
     if s.prefit:
+        c.fault_plan = P.FaultPlan(())
         ok0, r0 = U.sut(c, "fit(before)", model.fit, U.as_frame(s.X0) if s.frame else s.X0, s.y0)
         if ok0:
             for meth0 in ("predict", "transform_bins"):
                 U.sut(c, meth0 + "(before)", getattr(model, meth0), s.X0[: max(1, len(s.X0) // 2)])
             c.probe("fitted_and_queried_before")
+            sites = sorted(set(s_ for s_ in c.fault_plan.seen if s_[2] == "fit"))
+            if s.prefit_dies and sites:
+                c.fault_plan = P.FaultPlan([sites[s.prefit_site % len(sites)]], s.prefit_kind)
+                c.sched_cfg = None
+                U.sut(c, "fit(before, dies)", model.fit, U.as_frame(s.X0) if s.frame else s.X0, s.y0)
+                if c.fault_plan.fired:
+                    c.probe("earlier_fit_died_inside_a_bucket")
+        c.fault_plan = None
+        c.sched_cfg = None
+        c.entropy = E.Entropy("pinned")
+        c.entropy.os_by_task = s.os_base
+        numpy.random.seed(s.g % (2**32 - 1))
     if s.w is None:
         ok, r = U.sut(c, "fit", model.fit, Xin, s.y)
     else:
